@@ -395,7 +395,8 @@ class Aligner:
                 # else): decide by comparing the *effects* of short statement windows under every valuation of their conditions
                 step = None
                 for wa, wb in ((1, 1), (1, 2), (2, 1), (2, 2)):
-                    if i + wa <= len(la) and j + wb <= len(lb) and self.effects_equal(la[i:i + wa], lb[j:j + wb]):
+                    tail = ctx in LOOP_CTX and i + wa == len(la) and j + wb == len(lb)
+                    if i + wa <= len(la) and j + wb <= len(lb) and self.effects_equal(la[i:i + wa], lb[j:j + wb], loop_tail=tail):
                         step = (wa, wb)
                         break
                 if step is None:
@@ -487,7 +488,10 @@ class Aligner:
                 else:
                     out.append(("ret", self._value(ks[0], val, side) if ks else None))
                 return True
-            elif k in ("ForStmt", "WhileStmt", "DoStmt", "CXXForRangeStmt", "SwitchStmt", "DeclStmt", "BreakStmt", "ContinueStmt"):
+            elif k in ("ContinueStmt", "BreakStmt"):
+                out.append(("jump", k))
+                return True
+            elif k in ("ForStmt", "WhileStmt", "DoStmt", "CXXForRangeStmt", "SwitchStmt", "DeclStmt"):
                 out.append(("do", s0))
             elif k == "BinaryOperator" and s0.get("opcode") == "=":
                 l, r = kids(s0)
@@ -509,7 +513,7 @@ class Aligner:
             return self._value(ks[1] if self._bool(ks[0], val, side) else ks[2], val, side)
         return e
 
-    def effects_equal(self, wa, wb):
+    def effects_equal(self, wa, wb, loop_tail=False):
         if not any(_u(x).get("kind") in ("IfStmt", "ReturnStmt", "BinaryOperator", "CompoundStmt") for x in wa + wb):
             return False
         # only worth trying when at least one side has a branch, a conditional expression or a boolean return
@@ -546,11 +550,21 @@ class Aligner:
                     if not explore(v2):
                         return False
                 return True
+            if loop_tail:
+                # at the very end of a loop body a trailing `continue` changes nothing
+                while oa and oa[-1] == ("jump", "ContinueStmt"):
+                    oa.pop()
+                while ob and ob[-1] == ("jump", "ContinueStmt"):
+                    ob.pop()
             if len(oa) != len(ob):
                 return False
             for x, y in zip(oa, ob):
                 if x[0] != y[0]:
                     return False
+                if x[0] == "jump":
+                    if x != y:
+                        return False
+                    continue
                 for p, q in zip(x[1:], y[1:]):
                     if not same_node(p, q):
                         return False
